@@ -53,6 +53,7 @@ func newWatchSession(ctx context.Context, log logutil.Log, client client.WatchCl
 		lc:      lc,
 	}
 
+	verifTrace(s, "session.new", version)
 	go lc.WatchContext(ctx)
 	go s.run()
 	return s
@@ -82,10 +83,12 @@ func (s *_watchSession) run() {
 	conn, err := s.connect()
 	if err != nil {
 		s.log.Debugf("connecting to server: %v", err)
+		verifTrace(s, "session.end", err)
 		s.lc.ShutdownInitiated(errors.Wrap(err, "connecting to server"))
 		return
 	}
 
+	verifTrace(s, "session.connected", s.version)
 	defer conn.Stop()
 
 	for {
@@ -93,12 +96,15 @@ func (s *_watchSession) run() {
 
 		case err := <-s.lc.ShutdownRequest():
 
+			verifTrace(s, "session.end", err)
 			s.lc.ShutdownInitiated(err)
 			return
 
 		case kevt, ok := <-conn.ResultChan():
+			verifTrace(s, "session.frame", ok, kevt)
 
 			if !ok {
+				verifTrace(s, "session.end", nil)
 				s.lc.ShutdownInitiated(nil)
 				return
 			}
@@ -110,6 +116,7 @@ func (s *_watchSession) run() {
 
 			obj, err := meta.Accessor(kevt.Object)
 			if err != nil {
+				verifTrace(s, "session.end", err)
 				s.lc.ShutdownInitiated(errors.Wrap(err, "meta accessor"))
 				return
 			}
@@ -130,9 +137,11 @@ func (s *_watchSession) run() {
 				continue
 			}
 
+			verifTrace(s, "session.in", evt)
 			select {
 			case s.outch <- evt:
 			default:
+				verifTrace(s, "session.drop", evt)
 				s.log.Warnf("output buffer full; event missed.")
 			}
 
